@@ -12,6 +12,10 @@
   numbers of producers, all capacities `c.cap`, all interleavings — in particular of producers with the
   consumer's exit decision (empty poll, size check, CAS) — and all accept/refuse sequences.
   `ReachA c` restricts the executor to "every launch is accepted".
+  `Reach` / `ReachA` range over executions in which the `_events` counter never overflows (`StepN`: fewer
+  than `2 ^ c.evBits` signals while one consumer activation lasts).  `gen_events_width` pins the code's
+  counter to 64 bits, where this needs 2^64 signals before the queue is once seen empty;
+  `eq_events_wrap_counterexample` shows that for a narrow counter the restriction cannot be dropped.
 
   `c.sizeCheck = true` is the code after repair 0c66556 (`gen_exit_checks_size` pins it to the source);
   `eq_prefix_counterexample` shows that without that branch `join()` returns early.
@@ -53,10 +57,17 @@ theorem gen_constants :
 /-- the consumer re-polls instead of leaving while an index is handed out but not popped (repair
 0c66556); the theorems below that assume `c.sizeCheck = true` are about this code -/
 theorem gen_exit_checks_size : exitChecksSize = true := by decide
-/-- the configuration the replay driver runs the model in (`sizeCheck := exitChecksSize`, any capacity)
-satisfies the hypothesis `c.sizeCheck = true` of the theorems below -/
-theorem gen_code_cfg (cap : Nat) : ({ cap := cap, sizeCheck := exitChecksSize } : Cfg).sizeCheck = true :=
-  gen_exit_checks_size
+/-- `_events` is a 64-bit counter and its operations yield 64-bit values (the `events` locals are `size_t`
+by `gen_src_start_consumer` / `gen_src_consume_until_empty`): an overflow needs 2^64 signals within one
+consumer activation -/
+theorem gen_events_width : eventsBytes = 8 ∧ eventsValueBytes = 8 := by decide
+/-- the configuration the replay driver runs the model in (`sizeCheck := exitChecksSize`,
+`evBits := 8 * eventsBytes`, any capacity) satisfies the hypothesis `c.sizeCheck = true` of the theorems
+below and has the 64-bit counter -/
+theorem gen_code_cfg (cap : Nat) :
+    ({ cap := cap, sizeCheck := exitChecksSize, evBits := 8 * eventsBytes } : Cfg).sizeCheck = true ∧
+    ({ cap := cap, sizeCheck := exitChecksSize, evBits := 8 * eventsBytes } : Cfg).evBits = 64 :=
+  ⟨gen_exit_checks_size, rfl⟩
 
 /-! ## eq_single_consumer -/
 
@@ -261,9 +272,10 @@ theorem eq_join_sound_accepting (c : Cfg) (hc : c.sizeCheck = true) (s : State) 
       · rfl
       · have := (reach_invC hc (ReachA.reach hr')).debtRef h
         rw [reachA_refusals hr'] at this; omega
+    obtain ⟨hst, hw⟩ := hst
     cases hst with
     | act t inp s' l h hne =>
-      have hs := stepThread_tstep h
+      have hs := stepThread_tstep h hw
       cases hs with
       | joinRet snap hpc he =>
         have := (eq_join_sound c hc s1 (ReachA.reach hr') t snap hpc he hd).1
@@ -287,9 +299,13 @@ the state every later `signal_push_event` starts a launch from (`eq_next_signal_
 theorem eq_refused_rollback (c : Cfg) (s s' : State) (hr : Reach c s) (t ev : Nat) (otk : Option Nat) (inp : Inp) (l : Label)
     (hpc : s.pc t = .pRollback ev otk) (he : s.events = ev) (hst : stepThread c s t inp = some (s', l)) :
     s'.events = 0 ∧ s'.result t = 1 ∧ s'.pc t = .idle ∧ (∀ u, (s'.pc u).owner = false) ∧ s'.launched = 0 := by
-  have hr' : Reach c s' := .tail hr (.act s t inp s' l hst)
+  have hw : s'.wrapped = false := by
+    have := reach_wrapped hr
+    simp only [stepThread, hpc, he, if_true, Option.some.injEq, Prod.mk.injEq] at hst
+    rw [← hst.1]; exact this
+  have hr' : Reach c s' := .tail hr ⟨.act s t inp s' l hst, hw⟩
   have ho' := (reach_invB hr').o
-  have h := stepThread_tstep hst
+  have h := stepThread_tstep hst hw
   cases h <;> simp_all
   refine ⟨?_, ?_⟩
   · intro u
@@ -303,9 +319,10 @@ theorem eq_refused_rollback (c : Cfg) (s s' : State) (hr : Reach c s) (t ev : Na
 /-- with `_events = 0` the next `signal_push_event` (bare, or at the end of an `execute`) performs a
 launch attempt -/
 theorem eq_next_signal_launches (c : Cfg) (s s' : State) (t : Nat) (otk : Option Nat) (inp : Inp) (l : Label)
-    (hpc : s.pc t = .pSignal otk) (he : s.events = 0) (hst : stepThread c s t inp = some (s', l)) :
+    (hpc : s.pc t = .pSignal otk) (he : s.events = 0) (hst : stepThread c s t inp = some (s', l))
+    (hw : s'.wrapped = false) :
     s'.pc t = .pLaunch 1 otk ∧ s'.events = 1 := by
-  have h := stepThread_tstep hst
+  have h := stepThread_tstep hst hw
   cases h <;> simp_all
 
 /-- **Refused launches recover.**  For every history of accepted and refused launches: when a consumer
@@ -318,10 +335,14 @@ theorem eq_refused_recovers (c : Cfg) (hc : c.sizeCheck = true) (s s' : State) (
     (hst : stepThread c s t inp = some (s', l)) :
     s'.events = 0 ∧ s'.debt = false ∧ (∀ i, s'.sig i = true → i < s'.ncons) ∧
     (∀ i, s'.head ≤ i → i < s'.tail → s'.sig i = false ∧ (s'.pc (s'.holder i)).inFlight = true) := by
-  have hr' : Reach c s' := .tail hr (.act s t inp s' l hst)
+  have hw : s'.wrapped = false := by
+    have := reach_wrapped hr
+    simp only [stepThread, hpc, he, if_true, Option.some.injEq, Prod.mk.injEq] at hst
+    rw [← hst.1]; exact this
+  have hr' : Reach c s' := .tail hr ⟨.act s t inp s' l hst, hw⟩
   obtain ⟨ho', hq', hn', hi'⟩ := reach_invB hr'
   have hcv' := reach_invC hc hr'
-  have h := stepThread_tstep hst
+  have h := stepThread_tstep hst hw
   have hev : s'.events = 0 ∧ s'.debt = false := by cases h <;> simp_all
   have hnc : ∀ u, (s'.pc u).consumer = false := by
     intro u; cases hu : (s'.pc u).consumer
@@ -435,6 +456,39 @@ theorem eq_prefix_counterexample :
 `_next_push_index ≠ head` and polls again -/
 example : (run { cap := 4 } State.init (prefixWitness.take 9 ++ [.act 1 .none])).map (fun s => s.pc 1) =
     some (.cPop (.inl (some 1)) 1 false) := by decide
+
+/-! ## The no-overflow restriction is necessary for a narrow counter -/
+
+/-- with a 2-bit `_events` (overflow after 4 signals): thread 1 is held inside the consume function,
+thread 2 signals three times (1 → 2 → 3 → 0), thread 3's `execute` then reads 0 from its `fetch_add`
+and launches a second consumer, which pops the next item and enters the consume function too. -/
+def wrapWitness : List Move :=
+  [.execute 1 100, .act 1 .none, .act 1 .none, .act 1 .none, .act 1 (.launch .inl),
+   .act 1 .none, .act 1 (.pop 1), .act 1 .none,
+   .signal 2, .act 2 .none, .signal 2, .act 2 .none, .signal 2, .act 2 .none,
+   .execute 3 300, .act 3 .none, .act 3 .none, .act 3 .none, .act 3 (.launch .inl),
+   .act 3 .none, .act 3 (.pop 1), .act 3 .none]
+
+/-- **A counter that overflows breaks "one consumer at a time".**  In the unrestricted system (`Step`,
+overflow allowed) with `evBits = 2` a state is reachable, without any refusal, in which the consume
+function is running on two threads at once.  The same schedule with the counter narrowed to 32 bits
+needs 2^32 signals during one consumer activation (replayed on the real code by the harness mode `wrap`,
+which presets `_events` to 2^32 − k); `gen_events_width` pins the code to 64 bits. -/
+theorem eq_events_wrap_counterexample :
+    ∃ s, Reachable (· = State.init) (Step { cap := 4, evBits := 2 }) s ∧
+      (s.pc 1).inCb = true ∧ (s.pc 3).inCb = true ∧ s.refusals = 0 ∧ s.wrapped = true := by
+  have hrun : (runW { cap := 4, evBits := 2 } State.init wrapWitness).map
+      (fun s => decide ((s.pc 1).inCb = true ∧ (s.pc 3).inCb = true ∧ s.refusals = 0 ∧ s.wrapped = true)) =
+      some true := by decide
+  cases hs : runW { cap := 4, evBits := 2 } State.init wrapWitness with
+  | none => rw [hs] at hrun; simp at hrun
+  | some s =>
+    rw [hs] at hrun
+    exact ⟨s, runW_reachable wrapWitness _ _ (Reachable.base rfl) hs, by simpa using hrun⟩
+
+/-- the same schedule with the 64-bit counter does not overflow and thread 3 launches nothing -/
+example : (run { cap := 4 } State.init (wrapWitness.take 18)).map (fun s => (s.pc 3, s.events, s.wrapped)) =
+    some (.idle, 5, false) := by decide
 
 /-! ## Non-vacuity -/
 
